@@ -33,7 +33,8 @@ def check(prog, rep):
     codec_peewee(prog, rep)
     # an accepted heartbeat stays: nothing rolls the shared open transaction back
     check_no_rollback(prog, rep)
-    wrapper_rules(prog, rep)
+    # (how Bucket.get passes limit / window on is C03's subject: with any limit the newest event is still the first one returned)
+    wrapper_rules(prog, rep, arg_skip=("Bucket.get",))
     # the other side of the comparison: heartbeat_reduce is the left fold of the same merge function the loop calls
     from .c08 import fold_rule
 
